@@ -32,6 +32,18 @@ run_demo() { # $1 = label ; prints PASS/FAIL
     (cd $SRC && env $DEMOENV ELKPATH=$WT timeout 300 /tmp/mutout/elk-$NAME run demo.elk > /tmp/mutout/demo-$NAME-$1.out 2>/tmp/mutout/demo-$NAME-$1.err)
     cmp -s /tmp/mutout/demo-$NAME-$1.out $SRC/expected_output.txt || ok=0
     rm -f /tmp/mutout/elk-$NAME
+  elif [ -f $SRC/demo.elk.test ]; then
+    # test-runner demos: only the Summary line and the exit status are compared (the listing order is shuffled)
+    go build -o /tmp/mutout/elk-$NAME ./cmd/elk || { echo "BUILD FAILED"; return 2; }
+    # extra CLI arguments and the compared lines come from the demo command recorded in RUN.txt
+    CMDLINE=$(grep -m1 "test --main demo.elk.test" $SRC/RUN.txt)
+    TARGS=$(echo "$CMDLINE" | sed -E "s/.*--main demo.elk.test([^|]*)\|.*/\1/")
+    TPAT=$(echo "$CMDLINE" | sed -nE "s/.*grep -E '([^']*)'.*/\1/p")
+    [ -z "$TPAT" ] && TPAT='^Summary'
+    (cd $SRC && eval "ELKPATH=$WT timeout 300 /tmp/mutout/elk-$NAME test --main demo.elk.test $TARGS" > /tmp/mutout/demo-$NAME-$1.raw 2>/tmp/mutout/demo-$NAME-$1.err; echo "exit=$?" >> /tmp/mutout/demo-$NAME-$1.raw)
+    grep -E "$TPAT|^exit=" /tmp/mutout/demo-$NAME-$1.raw > /tmp/mutout/demo-$NAME-$1.out
+    cmp -s /tmp/mutout/demo-$NAME-$1.out $SRC/expected_output.txt || ok=0
+    rm -f /tmp/mutout/elk-$NAME
   else
     echo "no demo found"; return 2
   fi
@@ -51,7 +63,7 @@ git checkout -q -- .
 if grep -q "clean: demo PASS" $LOG && grep -q "mutated: demo FAIL" $LOG && grep -q "SUITE: PASS" $LOG; then
   mkdir -p /verif/seeded/$NAME
   cp /tmp/mutout/applied-$NAME.diff /verif/seeded/$NAME/patch.diff
-  for f in $SRC/*_test.go $SRC/demo.elk $SRC/expected_output.txt $SRC/RUN.txt; do [ -f $f ] && cp $f /verif/seeded/$NAME/; done
+  for f in $SRC/*_test.go $SRC/demo.elk $SRC/demo.elk.test $SRC/expected_output.txt $SRC/RUN.txt; do [ -f $f ] && cp $f /verif/seeded/$NAME/; done
   python3 - <<PY
 import json
 m=json.load(open('$SRC/meta.json'))
